@@ -36,15 +36,26 @@ namespace stverif_driver
 {
     using namespace ST::literals;
 
+// language-level dependent argument groups (the thorough tier lowers this file as C++20, C++17 and C++11)
+#ifdef __cpp_char8_t
+#   define ST_VERIF_ARGS_CHAR8 (char8_t)u8'z', (const char8_t *)u8"e", std::u8string(u8"k"), std::u8string_view(u8"p"),
+#else
+#   define ST_VERIF_ARGS_CHAR8
+#endif
+#if __cplusplus >= 201703L
+#   define ST_VERIF_ARGS_17 std::string_view("l"), std::wstring_view(L"m"), std::u16string_view(u"n"), std::u32string_view(U"o"), \
+        std::filesystem::path("q"),
+#else
+#   define ST_VERIF_ARGS_17
+#endif
 #define ST_VERIF_ARGS_ALL \
-        (char)'c', (wchar_t)L'w', (char16_t)u'x', (char32_t)U'y', (char8_t)u8'z', \
+        (char)'c', (wchar_t)L'w', (char16_t)u'x', (char32_t)U'y', \
         (signed char)1, (unsigned char)2, (short)3, (unsigned short)4, 5, 6u, 7l, 8ul, 9ll, 10ull, \
         1.5, 2.5f, std::complex<double>(1, 2), \
         (const char *)"a", (const wchar_t *)L"b", (const char16_t *)u"c", (const char32_t *)U"d", \
-        (const char8_t *)u8"e", ST::string("f"), \
-        std::string("g"), std::wstring(L"h"), std::u16string(u"i"), std::u32string(U"j"), std::u8string(u8"k"), \
-        std::string_view("l"), std::wstring_view(L"m"), std::u16string_view(u"n"), std::u32string_view(U"o"), \
-        std::u8string_view(u8"p"), std::filesystem::path("q"), true
+        ST::string("f"), \
+        std::string("g"), std::wstring(L"h"), std::u16string(u"i"), std::u32string(U"j"), \
+        ST_VERIF_ARGS_CHAR8 ST_VERIF_ARGS_17 true
 
     void formats(FILE *fp, std::ostream &os, std::wostream &wos,
                  std::basic_ostream<char16_t> &os16, std::basic_ostream<char32_t> &os32,
